@@ -55,3 +55,15 @@ package values
 //@ loop 1 invariant length: len(a) == i - r.b && cap(a) >= max(0, r.e - r.b + 1)
 //@ loop 1 invariant elems: forall(k, 0, len(a), a[k] == box(r.b + k))
 //@ loop 1 decreases r.e + 1 - i
+
+// Equal/Less are treated as functions of their arguments (pure): within one
+// obligation the contents of compared slices are assumed unchanged.
+//@ func values.Equal
+//@ pure
+//@ unverified
+//@ props C09 C10 C18 C01
+
+//@ func values.Less
+//@ pure
+//@ unverified
+//@ props C09 C18 C01
